@@ -111,3 +111,25 @@ def magnitude_families(delta=0):
     f["data_value_magnitude"] = lambda k: "#d8 %s\n" % lit(k)
     f["iters_option"] = lambda k: ("#d8 1\n", ["-t", str(1 << k)]) if k <= 70 else None
     return f
+
+
+def word_edge_positions():
+    """programs whose bank position, reservation or address distance reaches the edge of a machine word: every one is an
+    error or a tiny output (finding F61, repaired: the sums and products wrapped around in the released binary)"""
+    return [
+        "#d8 1\n#align 0xffffffffffffffff\n#d8 2\n",
+        "#d8 1\n#align 0xffffffffffffffff\n",
+        "#d8 1\n#align 0xfffffffffffffff8\n#d8 2\n",
+        "#d8 1\n#align 0xfffffffffffffff9\n#d8 2\n#d8 3\n",
+        "#bankdef b { #bits 0x100000000000, #addr 0, #outp 0 }\n#res 0x100000\n#d8 1\n",
+        "#bankdef b { #bits 0x100000000000, #addr 0, #outp 0 }\n#res 0xfffff\n",
+        "#bankdef b { #bits 0x100000001, #addr 0, #outp 0 }\n#res 0xffffffff\n#res 0xffffffff\n",
+        "#bankdef b { #bits 16, #addr 0, #outp 0 }\n#addr 0x1000000000000001\n#d16 1\n",
+        "#bankdef b { #bits 16, #addr 0, #outp 0 }\n#addr 0x0fffffffffffffff\n#d16 1\n",
+        "#bankdef b { #bits 16, #addr 0, #size 0x100, #outp 0 }\n#addr 0x1000000000000001\n#d16 1\n",
+        "#bankdef b { #bits 8, #addr 0, #size 0x100, #outp 0, #labelalign 0xffffffffffffffff }\n#d8 1\nl:\n#d8 2\nk:\n",
+        "#bankdef b { #bits 8, #addr 0, #size 0x1ffffffffffffff, #outp 0 }\n#res 0xffffffff\n#res 0xffffffff\n#align 0xffffffffffffff00\n#res 0xff\nx:\n",
+        "#bankdef b { #bits 8, #addr 0 }\n#align 0xfffffffffffffff8\n#res 1\nx:\n",
+        "#bankdef b { #bits 8, #addr 0 }\n#d8 1\n#align 0xffffffffffffffff\n#res 1\nx:\n",
+        "#bankdef b { #bits 8, #addr 0 }\n#res 1\n#align 0xffffffffffffffff\n#res 0xffffffff\nx:\n#d8 x`8\n",
+    ]
